@@ -3569,6 +3569,9 @@ void SoPlexBase<R>::_lift()
    // remember unlifted state
    _beforeLiftCols = numColsRational();
    _beforeLiftRows = numRowsRational();
+   _liftedEntryRows.clear();
+   _liftedEntryCols.clear();
+   _liftedEntryVals.reDim(0);
 
    // allocate vector memory
    DSVectorRational colVector;
@@ -3631,6 +3634,15 @@ void SoPlexBase<R>::_lift()
             assert(liftingColumnIndex == numColsRational() - 1);
 
             SPxOut::debug(this, "            --> changing matrix\n");
+
+            // remember the entries of the original columns: _project() puts them back
+            if(i < _beforeLiftCols)
+            {
+               _liftedEntryRows.append(rowIndex);
+               _liftedEntryCols.append(i);
+               _liftedEntryVals.reDim(_liftedEntryRows.size());
+               _liftedEntryVals[_liftedEntryRows.size() - 1] = value;
+            }
 
             // remove nonzero from original column
             _rationalLP->changeElement(rowIndex, i, 0);
@@ -3701,6 +3713,15 @@ void SoPlexBase<R>::_lift()
 
             SPxOut::debug(this, "            --> changing matrix\n");
 
+            // remember the entries of the original columns: _project() puts them back
+            if(i < _beforeLiftCols)
+            {
+               _liftedEntryRows.append(rowIndex);
+               _liftedEntryCols.append(i);
+               _liftedEntryVals.reDim(_liftedEntryRows.size());
+               _liftedEntryVals[_liftedEntryRows.size() - 1] = value;
+            }
+
             // remove nonzero from original column
             _rationalLP->changeElement(rowIndex, i, 0);
             _realLP->changeElement(rowIndex, i, 0.0);
@@ -3766,6 +3787,17 @@ void SoPlexBase<R>::_project(SolRational& sol)
    // shrink real LP to original size
    _realLP->removeColRange(_beforeLiftCols, numColsReal() - 1);
    _realLP->removeRowRange(_beforeLiftRows, numRowsReal() - 1);
+
+   // put the matrix entries that were moved to lifting columns back into the original columns
+   for(int k = 0; k < _liftedEntryRows.size(); k++)
+   {
+      _rationalLP->changeElement(_liftedEntryRows[k], _liftedEntryCols[k], _liftedEntryVals[k]);
+      _realLP->changeElement(_liftedEntryRows[k], _liftedEntryCols[k], R(_liftedEntryVals[k]));
+   }
+
+   _liftedEntryRows.clear();
+   _liftedEntryCols.clear();
+   _liftedEntryVals.reDim(0);
 
    // adjust solution
    if(sol.isPrimalFeasible())
